@@ -222,6 +222,43 @@ def make_lost_rtu(j):
     return lost_rtu
 
 
+def fresh_protocol_rtu(u: int, v: bytes) -> bool:
+    """serial variant, default construction: a protocol object whose connection dropped in the middle of a reply must
+    not affect the NEXT protocol object (re-opened port): its request is answered by its own complete reply"""
+    import pymodbus.factory as F
+    from pymodbus.client.asynchronous.twisted import ModbusSerClientProtocol
+    from harness.serverlib import FakeTransport, Result
+    assume(len(v) == 6)
+    assume(1 <= u <= 247)
+
+    def proto():
+        p = ModbusSerClientProtocol()
+        p.transport = FakeTransport(Result())
+        p.connectionMade()
+        return p
+    a = proto()
+    r0 = F.ReadHoldingRegistersRequest(0, 1)
+    r0.unit_id = u
+    w0 = _watch(a.execute(r0))
+    a.dataReceived(adu.ref_adu("rtu", bytes([3, 2, v[0], v[1]]), u))
+    if len(w0.ok) != 1:
+        return False
+    r1 = F.ReadHoldingRegistersRequest(1, 1)
+    r1.unit_id = u
+    _watch(a.execute(r1))
+    a.dataReceived(adu.ref_adu("rtu", bytes([3, 2, v[2], v[3]]), u)[:4])      # the line drops in the middle of this reply
+    a.connectionLost("test")
+    b = proto()
+    r2 = F.ReadHoldingRegistersRequest(2, 1)
+    r2.unit_id = u
+    w2 = _watch(b.execute(r2))
+    b.dataReceived(adu.ref_adu("rtu", bytes([3, 2, v[4], v[5]]), u))
+    if len(w2.ok) != 1 or w2.err:
+        explain("request on the re-opened port: ok=%d err=%d", len(w2.ok), len(w2.err))
+        return False
+    return same(list(w2.ok[0].registers), [v[4] * 256 + v[5]], "reply on the re-opened port")
+
+
 def obligations(tier):
     from harness import kernels
     T = 300 if tier == "quick" else 1200
@@ -242,6 +279,8 @@ def obligations(tier):
     for j in (0, 1, 2):
         out.append(Obl("lost.rtu.at%d" % j, make_lost_rtu(j), timeout=T, contracts=("crc",), lemmas=("K1",),
                        bounds="serial (FIFO) protocol: two requests, %d replies delivered, then connection lost, then one more request; unit and values symbolic" % j))
+    out.append(Obl("fresh-protocol.rtu", fresh_protocol_rtu, timeout=T, contracts=("crc",), lemmas=("K1",),
+                   bounds="two ModbusSerClientProtocol objects built with their defaults, one after the other: the first loses its connection after 4 bytes of a reply; the second's request is answered by its own reply; unit and values symbolic"))
     out.append(Obl("fifo.rtu", fifo_rtu, timeout=T, contracts=("crc",), lemmas=("K1",),
                    bounds="serial (FIFO) protocol: two requests, two replies in order; unit and values symbolic"))
     return out
